@@ -153,8 +153,9 @@ PROPS['C14'] = dict(
 )
 PROPS['C15'] = dict(
     family='line', needs_scrut_bin=True,
-    theorems=['C15_skip_detected', 'C15_skip_all', 'C15_only_then', 'C15_skip_has_cause', 'C15_script_skip_detected', 'C15_script_skip_has_cause', 'C15_default_code'],
-    streams=lambda tier: [exec_stream(tier), cli_stream(tier)],
+    theorems=['C15_skip_detected', 'C15_skip_all', 'C15_only_then', 'C15_skip_has_cause', 'C15_script_skip_detected', 'C15_script_skip_has_cause', 'C15_script_skip_read_from_dividers', 'C15_script_left_with_skip_code', 'C15_default_code'],
+    streams=lambda tier: [exec_stream(tier), cli_stream(tier),
+                          dict(name='divider-skip(fake shell)', harness=['divider', str({'quick': 1600, 'extended': 8000, 'thorough': 60000}[tier]), '{seed}', '{shard}', '{nshards}'], driver='skipdiv', timeout=3000)],
     spec_kinds=['SPEC:C15'], corr_kinds=['DIFF:skipcode', 'DIFF:exec', 'DIFF:results'],
     case_format=EXEC_FORMAT,
     rule='mock-runner: skip codes set per test / per document / default, any position, expected code equal to the skip code or not; the effective skip code the runner sees is compared too. '
@@ -162,7 +163,7 @@ PROPS['C15'] = dict(
     manifest=dict(text='Machine-checked theorems (Coq): a reached test that ends in its effective skip code makes the executor report a skip; then every test of the document is reported skipped and none failed; a skipped result arises only from a skip or after a timeout; a skip always has a cause; for Cram (one script, with or without a test case that leaves it early) the document is skipped exactly when a printed divider carries the skip code or the script ends in it. Default code pinned against regenerated constants. Tied to /repo by the real StatefulExecutor under a scripted runner (effective codes observed) and by CLI runs through both executors.',
                   technique='Coq proof over the executor state machine (both executors) + mock-runner and CLI differential runs'),
     exhaustive={'quick': False, 'thorough': False},
-    assumptions=['Cram: divider parsing is modelled at the level of per-test exit codes (C13 covers the byte level)'],
+    assumptions=['Cram: the state-machine theorems speak of per-test exit codes; the byte level (dividers of the script output -> skip / outputs / error, finished_testcases) is the transcription in ScriptExec.v with C15_script_skip_read_from_dividers and C15_script_left_with_skip_code, compared with the real BashScriptExecutor on scripted streams and shell exit statuses (fake shell)'],
 )
 PROPS['C20'] = dict(
     family='line', needs_scrut_bin=True,
